@@ -72,9 +72,10 @@ def nodeLabels (s : Scenario) (n : Node) : Labels :=
   let poolLabels : Labels := match s.pool? n.pool with
     | some p => (Karp.Gen.Labels.nodePoolLabelKey, p.name) :: p.labels
     | none => []
+  -- a node whose scenario zone is "" (unmanaged nodes only) has no zone label
   n.labels ++ poolLabels ++
-  [("node.kubernetes.io/instance-type", n.it), ("topology.kubernetes.io/zone", n.zone),
-   (Karp.Gen.Labels.capacityTypeLabelKey, n.ct), ("kubernetes.io/arch", "amd64"), ("kubernetes.io/os", "linux"),
+  [("node.kubernetes.io/instance-type", n.it)] ++ (if n.zone == "" then [] else [("topology.kubernetes.io/zone", n.zone)]) ++
+  [(Karp.Gen.Labels.capacityTypeLabelKey, n.ct), ("kubernetes.io/arch", "amd64"), ("kubernetes.io/os", "linux"),
    ("kubernetes.io/hostname", n.name)]
 
 /-- the taints that persist on the node: its own and the NodePool's; startup taints and the well-known
@@ -179,6 +180,25 @@ def podVolumesOK (s : Scenario) (p : Pod) (sat : List KExpr → Bool) (wher : St
       if terms.isEmpty || terms.any sat then none
       else some s!"pod {p.name}: its volume {v.name} (claim {p.ns}/{v.claim}) is not reachable from {wher}: no topology term of the volume holds there"))
 
+/-- CLASSIFIES a violation (never excuses one): the pod's volumes cannot all be attached ANYWHERE — every choice of one
+    topology term per volume is contradictory on some key `k` (no value satisfies all the chosen expressions on `k`) — and the
+    node lacks the label `k`.  Karpenter merges the volumes' alternatives anyway (volumetopology.go keeps "the old merged
+    result when every branch is incompatible"), the merged requirement on `k` is the empty set, which it represents as
+    `In {}` = `DoesNotExist`, and an existing node WITHOUT the label passes `Compatible` (known finding; a node that carries
+    the label and every new NodeClaim are rejected as they should be). -/
+def contradictoryVolumesOnUnlabelledNode (s : Scenario) (p : Pod) (cands : List String) (absent : String → Bool) : Bool :=
+  let tops : List (List (List KExpr)) := p.volumes.filterMap (fun v =>
+    match volumeTopology s p v with
+    | .ok terms => if terms.isEmpty then none else some terms
+    | .error _ => none)
+  -- one term per volume, expressions concatenated
+  let combos : List (List KExpr) := tops.foldl (fun acc terms => acc.flatMap (fun c => terms.map (fun t => c ++ t))) [[]]
+  tops.length ≥ 2 && combos.all (fun es =>
+    let keys := (es.map (fun e => normalizeKey e.key)).eraseDups
+    keys.any (fun k =>
+      let ek := es.filter (fun e => normalizeKey e.key == k)
+      absent k && !(cands.any (fun v => ek.all (fun e => k8sMatch e.op e.vals (some v))))))
+
 /-- all pods newly placed on an existing node -/
 def existingOK (s : Scenario) (n : Node) (newPods : List Pod) (cands : List String) : Option String :=
   match s.it? n.it with
@@ -189,7 +209,9 @@ def existingOK (s : Scenario) (n : Node) (newPods : List Pod) (cands : List Stri
     let perPod := firstSome (newPods.map (fun p => podOnLabels p ls taints cands))
     if perPod.isSome then perPod else
     -- every volume of every new pod is reachable from this node
-    let vols := firstSome (newPods.map (fun p => podVolumesOK s p (fun t => t.all (exprOK ls)) s!"node {n.name} (zone {n.zone})"))
+    let vols := firstSome (newPods.map (fun p =>
+      (podVolumesOK s p (fun t => t.all (exprOK ls)) s!"node {n.name} (zone {n.zone})").map (fun w =>
+        (if contradictoryVolumesOnUnlabelledNode s p cands (fun k => (ls.lookup k).isNone) then "[contradictory-volumes-on-unlabelled-node] " else "") ++ w)))
     if vols.isSome then vols else
     if n.deleting then some s!"node {n.name} is marked for deletion but received pods" else
     -- host ports among everything on the node
